@@ -92,7 +92,9 @@ pub(super) fn key_bytes(alg: Alg, dir: Dir) -> Vec<u8> {
         Dir::S2C => 0x11,
         Dir::C2S => 0x83,
     };
-    (0..n).map(|i| base.wrapping_add((i as u8).wrapping_mul(3))).collect()
+    (0..n)
+        .map(|i| base.wrapping_add((i as u8).wrapping_mul(3)))
+        .collect()
 }
 
 pub(super) fn new_cipher(alg: Alg, dir: Dir) -> Box<dyn Cipher> {
@@ -119,8 +121,14 @@ impl Env {
     pub(super) fn new() -> Env {
         let keyset = KeySet::new();
         let ciphers = [
-            [new_cipher(Alg::A256, Dir::C2S), new_cipher(Alg::A256, Dir::S2C)],
-            [new_cipher(Alg::A512, Dir::C2S), new_cipher(Alg::A512, Dir::S2C)],
+            [
+                new_cipher(Alg::A256, Dir::C2S),
+                new_cipher(Alg::A256, Dir::S2C),
+            ],
+            [
+                new_cipher(Alg::A512, Dir::C2S),
+                new_cipher(Alg::A512, Dir::S2C),
+            ],
         ];
         // Server cookies carrying our session keys. `KeySet::encode_cookie` draws a random
         // nonce, which would make the enumeration differ from run to run, so the cookie is
@@ -149,10 +157,16 @@ impl Env {
                         || back.c2s.key_bytes() != &key_bytes(alg, Dir::C2S)[..]
                         || back.algorithm != alg.aead()
                     {
-                        self_test.borrow_mut().push(format!("hand-made cookie ({}) decodes to other keys", alg.tag()));
+                        self_test.borrow_mut().push(format!(
+                            "hand-made cookie ({}) decodes to other keys",
+                            alg.tag()
+                        ));
                     }
                 }
-                Err(_) => self_test.borrow_mut().push(format!("hand-made cookie ({}) is rejected by KeySet::decode_cookie", alg.tag())),
+                Err(_) => self_test.borrow_mut().push(format!(
+                    "hand-made cookie ({}) is rejected by KeySet::decode_cookie",
+                    alg.tag()
+                )),
             }
             // and the crate's own encoder produces a cookie of the same size
             let theirs = keyset.encode_cookie(&DecodedServerCookie {
@@ -161,7 +175,10 @@ impl Env {
                 c2s: new_cipher(alg, Dir::C2S),
             });
             if theirs.len() != c.len() {
-                self_test.borrow_mut().push(format!("cookie length differs from KeySet::encode_cookie ({})", alg.tag()));
+                self_test.borrow_mut().push(format!(
+                    "cookie length differs from KeySet::encode_cookie ({})",
+                    alg.tag()
+                ));
             }
             c
         };
@@ -172,19 +189,30 @@ impl Env {
                 let c = ciphers[alg.idx()][dir.idx()].as_ref();
                 let (nonce, ct) = crate_encrypt(c, b"aad", b"plaintext!!!");
                 if siv_encrypt(alg, dir, &nonce, b"aad", b"plaintext!!!") != ct {
-                    self_test.borrow_mut().push(format!("Cipher::encrypt ({}) does not follow the AES-SIV [aad, nonce] convention", alg.tag()));
+                    self_test.borrow_mut().push(format!(
+                        "Cipher::encrypt ({}) does not follow the AES-SIV [aad, nonce] convention",
+                        alg.tag()
+                    ));
                 }
                 let n13 = filler(13, 7);
                 let sealed = siv_encrypt(alg, dir, &n13, b"aad", b"plaintext!!!");
                 if c.decrypt(&n13, &sealed, b"aad").ok().as_deref() != Some(&b"plaintext!!!"[..]) {
-                    self_test.borrow_mut().push(format!("Cipher::decrypt ({}) does not open an AES-SIV [aad, nonce] ciphertext", alg.tag()));
+                    self_test.borrow_mut().push(format!(
+                        "Cipher::decrypt ({}) does not open an AES-SIV [aad, nonce] ciphertext",
+                        alg.tag()
+                    ));
                 }
             }
         }
         let mut self_test = self_test.into_inner();
         self_test.sort();
         self_test.dedup();
-        Env { keyset, ciphers, cookies, self_test }
+        Env {
+            keyset,
+            ciphers,
+            cookies,
+            self_test,
+        }
     }
     pub(super) fn cipher(&self, alg: Alg, dir: Dir) -> &dyn Cipher {
         self.ciphers[alg.idx()][dir.idx()].as_ref()
@@ -210,8 +238,14 @@ fn siv_encrypt(alg: Alg, dir: Dir, nonce: &[u8], aad: &[u8], pt: &[u8]) -> Vec<u
     use aes_siv::siv::{Aes128Siv, Aes256Siv};
     let k = key_bytes(alg, dir);
     match alg {
-        Alg::A256 => Aes128Siv::new_from_slice(&k).expect("key").encrypt([aad, nonce], pt).expect("siv"),
-        Alg::A512 => Aes256Siv::new_from_slice(&k).expect("key").encrypt([aad, nonce], pt).expect("siv"),
+        Alg::A256 => Aes128Siv::new_from_slice(&k)
+            .expect("key")
+            .encrypt([aad, nonce], pt)
+            .expect("siv"),
+        Alg::A512 => Aes256Siv::new_from_slice(&k)
+            .expect("key")
+            .encrypt([aad, nonce], pt)
+            .expect("siv"),
     }
 }
 
@@ -357,16 +391,101 @@ const UPGRADE_TS: u64 = u64::from_be_bytes(*b"NTP5DRFT");
 /// v3/v4 header table; the first two are the ones used for the deep sequences.
 fn headers_v34(vn: u8) -> Vec<(String, [u8; 48])> {
     vec![
-        ("client".into(), hdr_v34(vn, 0, 3, 0, 6, 0xE8, 0, 0, [0; 4], [0, 0, 0, 0x0123_4567_89AB_CDEF])),
+        (
+            "client".into(),
+            hdr_v34(
+                vn,
+                0,
+                3,
+                0,
+                6,
+                0xE8,
+                0,
+                0,
+                [0; 4],
+                [0, 0, 0, 0x0123_4567_89AB_CDEF],
+            ),
+        ),
         (
             "server-max".into(),
-            hdr_v34(vn, 3, 4, 255, 0x80, 0x7F, 0xFFFF_FFFF, 0x8000_0000, *b"RATE",
-                [UPGRADE_TS, u64::MAX, 0x8000_0000_0000_0000, 0x7FFF_FFFF_FFFF_FFFF]),
+            hdr_v34(
+                vn,
+                3,
+                4,
+                255,
+                0x80,
+                0x7F,
+                0xFFFF_FFFF,
+                0x8000_0000,
+                *b"RATE",
+                [
+                    UPGRADE_TS,
+                    u64::MAX,
+                    0x8000_0000_0000_0000,
+                    0x7FFF_FFFF_FFFF_FFFF,
+                ],
+            ),
         ),
-        ("mode0".into(), hdr_v34(vn, 1, 0, 1, 0x7F, 0x80, 1, 0x0001_0000, [127, 0, 0, 1], [1, 2, 3, 4])),
-        ("mode7".into(), hdr_v34(vn, 2, 7, 16, 0xFF, 0xFF, 0x7FFF_FFFF, 0xFFFF_0000, *b"DENY", [u64::MAX; 4])),
-        ("kiss-ntsn".into(), hdr_v34(vn, 3, 4, 0, 4, 0, 0, 0, *b"NTSN", [0, 0x0123_4567_89AB_CDEF, 0, 0])),
-        ("bcast".into(), hdr_v34(vn, 0, 5, 2, 10, 0xEC, 0x0000_0100, 0x0000_0200, *b"GPS\0", [5, 6, 7, 8])),
+        (
+            "mode0".into(),
+            hdr_v34(
+                vn,
+                1,
+                0,
+                1,
+                0x7F,
+                0x80,
+                1,
+                0x0001_0000,
+                [127, 0, 0, 1],
+                [1, 2, 3, 4],
+            ),
+        ),
+        (
+            "mode7".into(),
+            hdr_v34(
+                vn,
+                2,
+                7,
+                16,
+                0xFF,
+                0xFF,
+                0x7FFF_FFFF,
+                0xFFFF_0000,
+                *b"DENY",
+                [u64::MAX; 4],
+            ),
+        ),
+        (
+            "kiss-ntsn".into(),
+            hdr_v34(
+                vn,
+                3,
+                4,
+                0,
+                4,
+                0,
+                0,
+                0,
+                *b"NTSN",
+                [0, 0x0123_4567_89AB_CDEF, 0, 0],
+            ),
+        ),
+        (
+            "bcast".into(),
+            hdr_v34(
+                vn,
+                0,
+                5,
+                2,
+                10,
+                0xEC,
+                0x0000_0100,
+                0x0000_0200,
+                *b"GPS\0",
+                [5, 6, 7, 8],
+            ),
+        ),
     ]
 }
 
@@ -374,19 +493,102 @@ fn headers_v34(vn: u8) -> Vec<(String, [u8; 48])> {
 const V5_VALID: usize = 4;
 fn headers_v5() -> Vec<(String, [u8; 48])> {
     vec![
-        ("request".into(), hdr_v5(0, 3, 0, 6, 0, 0, 0, 0, 0, [0, 0], 0, 0x0123_4567_89AB_CDEF, 0, 0)),
+        (
+            "request".into(),
+            hdr_v5(
+                0,
+                3,
+                0,
+                6,
+                0,
+                0,
+                0,
+                0,
+                0,
+                [0, 0],
+                0,
+                0x0123_4567_89AB_CDEF,
+                0,
+                0,
+            ),
+        ),
         (
             "response-max".into(),
-            hdr_v5(3, 4, 16, 0x7F, 0x80, 0xFFFF_FFFF, 0x8000_0000, 3, 255, [0, 7], u64::MAX, u64::MAX,
-                0x8000_0000_0000_0000, 0x7FFF_FFFF_FFFF_FFFF),
+            hdr_v5(
+                3,
+                4,
+                16,
+                0x7F,
+                0x80,
+                0xFFFF_FFFF,
+                0x8000_0000,
+                3,
+                255,
+                [0, 7],
+                u64::MAX,
+                u64::MAX,
+                0x8000_0000_0000_0000,
+                0x7FFF_FFFF_FFFF_FFFF,
+            ),
         ),
-        ("sync-li3".into(), hdr_v5(3, 4, 1, 0x80, 0xFF, 1, 0x1000_0000, 1, 1, [0, 1], 1, 2, 3, 4)),
-        ("unsync-li1".into(), hdr_v5(1, 3, 2, 0xFF, 0x7F, 0x7FFF_FFFF, 0xFFFF_FFF0, 2, 128, [0, 6], 9, 8, 7, 6)),
-        ("bad-timescale".into(), hdr_v5(0, 3, 0, 6, 0, 0, 0, 4, 0, [0, 0], 0, 1, 0, 0)),
-        ("bad-flags-lo".into(), hdr_v5(0, 3, 0, 6, 0, 0, 0, 0, 0, [0, 8], 0, 1, 0, 0)),
-        ("bad-flags-hi".into(), hdr_v5(0, 3, 0, 6, 0, 0, 0, 0, 0, [1, 0], 0, 1, 0, 0)),
-        ("bad-mode0".into(), hdr_v5(0, 0, 0, 6, 0, 0, 0, 0, 0, [0, 0], 0, 1, 0, 0)),
-        ("bad-mode7".into(), hdr_v5(0, 7, 0, 6, 0, 0, 0, 0xFF, 0, [0xFF, 0xFF], 0, 1, 0, 0)),
+        (
+            "sync-li3".into(),
+            hdr_v5(
+                3,
+                4,
+                1,
+                0x80,
+                0xFF,
+                1,
+                0x1000_0000,
+                1,
+                1,
+                [0, 1],
+                1,
+                2,
+                3,
+                4,
+            ),
+        ),
+        (
+            "unsync-li1".into(),
+            hdr_v5(
+                1,
+                3,
+                2,
+                0xFF,
+                0x7F,
+                0x7FFF_FFFF,
+                0xFFFF_FFF0,
+                2,
+                128,
+                [0, 6],
+                9,
+                8,
+                7,
+                6,
+            ),
+        ),
+        (
+            "bad-timescale".into(),
+            hdr_v5(0, 3, 0, 6, 0, 0, 0, 4, 0, [0, 0], 0, 1, 0, 0),
+        ),
+        (
+            "bad-flags-lo".into(),
+            hdr_v5(0, 3, 0, 6, 0, 0, 0, 0, 0, [0, 8], 0, 1, 0, 0),
+        ),
+        (
+            "bad-flags-hi".into(),
+            hdr_v5(0, 3, 0, 6, 0, 0, 0, 0, 0, [1, 0], 0, 1, 0, 0),
+        ),
+        (
+            "bad-mode0".into(),
+            hdr_v5(0, 0, 0, 6, 0, 0, 0, 0, 0, [0, 0], 0, 1, 0, 0),
+        ),
+        (
+            "bad-mode7".into(),
+            hdr_v5(0, 7, 0, 6, 0, 0, 0, 0xFF, 0, [0xFF, 0xFF], 0, 1, 0, 0),
+        ),
     ]
 }
 
@@ -449,13 +651,21 @@ impl Field {
 
 /// deterministic non-zero filler bytes
 pub(super) fn filler(n: usize, seed: u8) -> Vec<u8> {
-    (0..n).map(|i| (seed.wrapping_add((i as u8).wrapping_mul(7))) | 1).collect()
+    (0..n)
+        .map(|i| (seed.wrapping_add((i as u8).wrapping_mul(7))) | 1)
+        .collect()
 }
 
 pub(super) fn raw(name: &str, ty: u16, len: u16, body: Vec<u8>) -> Field {
     let long = body.len() > 200;
     let huge = body.len() > 2000;
-    Field { name: name.to_string(), kind: FieldKind::Raw { ty, len, body }, long, huge, core: false }
+    Field {
+        name: name.to_string(),
+        kind: FieldKind::Raw { ty, len, body },
+        long,
+        huge,
+        core: false,
+    }
 }
 
 /// canonical framing: declared length = 4 + data.len(), data zero padded to a word
@@ -476,17 +686,39 @@ fn default_nonce(name: &str) -> Vec<u8> {
 pub(super) fn auth(name: &str, alg: Alg, dir: Dir, plaintext: Vec<u8>) -> Field {
     Field {
         name: name.to_string(),
-        kind: FieldKind::Auth(AuthSpec { alg, dir, plaintext, nonce: Some(default_nonce(name)), pad_fill: 0, tail: vec![] }),
+        kind: FieldKind::Auth(AuthSpec {
+            alg,
+            dir,
+            plaintext,
+            nonce: Some(default_nonce(name)),
+            pad_fill: 0,
+            tail: vec![],
+        }),
         long: false,
         huge: false,
         core: false,
     }
 }
 
-pub(super) fn auth_ext(name: &str, alg: Alg, dir: Dir, plaintext: Vec<u8>, nonce: Option<Vec<u8>>, pad_fill: u8, tail: Vec<u8>) -> Field {
+pub(super) fn auth_ext(
+    name: &str,
+    alg: Alg,
+    dir: Dir,
+    plaintext: Vec<u8>,
+    nonce: Option<Vec<u8>>,
+    pad_fill: u8,
+    tail: Vec<u8>,
+) -> Field {
     Field {
         name: name.to_string(),
-        kind: FieldKind::Auth(AuthSpec { alg, dir, plaintext, nonce: Some(nonce.unwrap_or_else(|| default_nonce(name))), pad_fill, tail }),
+        kind: FieldKind::Auth(AuthSpec {
+            alg,
+            dir,
+            plaintext,
+            nonce: Some(nonce.unwrap_or_else(|| default_nonce(name))),
+            pad_fill,
+            tail,
+        }),
         long: false,
         huge: false,
         core: false,
@@ -494,10 +726,23 @@ pub(super) fn auth_ext(name: &str, alg: Alg, dir: Dir, plaintext: Vec<u8>, nonce
 }
 
 /// authenticator sealed by the crate's own `Cipher::encrypt` (random nonce)
-pub(super) fn auth_crate(name: &str, alg: Alg, dir: Dir, plaintext: Vec<u8>, tail: Vec<u8>) -> Field {
+pub(super) fn auth_crate(
+    name: &str,
+    alg: Alg,
+    dir: Dir,
+    plaintext: Vec<u8>,
+    tail: Vec<u8>,
+) -> Field {
     Field {
         name: name.to_string(),
-        kind: FieldKind::Auth(AuthSpec { alg, dir, plaintext, nonce: None, pad_fill: 0, tail }),
+        kind: FieldKind::Auth(AuthSpec {
+            alg,
+            dir,
+            plaintext,
+            nonce: None,
+            pad_fill: 0,
+            tail,
+        }),
         long: false,
         huge: false,
         core: false,
@@ -564,7 +809,11 @@ pub(super) fn assemble(env: &Env, header: &[u8; 48], fields: &[&Field], tail: &[
                 bytes.extend_from_slice(&ty.to_be_bytes());
                 bytes.extend_from_slice(&len.to_be_bytes());
                 bytes.extend_from_slice(body);
-                let r = if has_auth && !auth_seen { Region::PreField } else { Region::PostField };
+                let r = if has_auth && !auth_seen {
+                    Region::PreField
+                } else {
+                    Region::PostField
+                };
                 region.resize(bytes.len(), r);
                 len_offsets.push(off + 2);
                 if *ty == T_AUTH && body.len() >= 4 {
@@ -578,7 +827,10 @@ pub(super) fn assemble(env: &Env, header: &[u8; 48], fields: &[&Field], tail: &[
             FieldKind::Auth(a) => {
                 let (nonce, ct) = match &a.nonce {
                     None => crate_encrypt(env.cipher(a.alg, a.dir), &bytes, &a.plaintext),
-                    Some(n) => (n.clone(), siv_encrypt(a.alg, a.dir, n, &bytes, &a.plaintext)),
+                    Some(n) => (
+                        n.clone(),
+                        siv_encrypt(a.alg, a.dir, n, &bytes, &a.plaintext),
+                    ),
                 };
                 let np = pad4(nonce.len());
                 let cp = pad4(ct.len());
@@ -608,7 +860,11 @@ pub(super) fn assemble(env: &Env, header: &[u8; 48], fields: &[&Field], tail: &[
     }
     bytes.extend_from_slice(tail);
     region.resize(bytes.len(), Region::Tail);
-    Built { bytes, region, len_offsets }
+    Built {
+        bytes,
+        region,
+        len_offsets,
+    }
 }
 
 // ---------------------------------------------------------------------------------------
@@ -634,11 +890,22 @@ impl Pat {
 
 pub(super) fn patterns(quick: bool) -> Vec<Pat> {
     if quick {
-        vec![Pat::Set(0x00), Pat::Set(0xFF), Pat::Xor(0x80), Pat::Xor(0x01)]
+        vec![
+            Pat::Set(0x00),
+            Pat::Set(0xFF),
+            Pat::Xor(0x80),
+            Pat::Xor(0x01),
+        ]
     } else {
         vec![
-            Pat::Set(0x00), Pat::Set(0xFF), Pat::Xor(0x80), Pat::Xor(0x01), Pat::Xor(0x04), Pat::Add(1),
-            Pat::Set(0x04), Pat::Set(0x10),
+            Pat::Set(0x00),
+            Pat::Set(0xFF),
+            Pat::Xor(0x80),
+            Pat::Xor(0x01),
+            Pat::Xor(0x04),
+            Pat::Add(1),
+            Pat::Set(0x04),
+            Pat::Set(0x10),
         ]
     }
 }
@@ -699,14 +966,40 @@ fn bad_auth_fields(v5: bool) -> Vec<Field> {
         // no room for the nonce / ciphertext length words
         raw("ax-len4", T_AUTH, 4, vec![]),
         // nonce length larger than the body
-        raw("ax-nonce-big", T_AUTH, 24, [&[0, 64, 0, 0][..], &filler(16, 3)].concat()),
+        raw(
+            "ax-nonce-big",
+            T_AUTH,
+            24,
+            [&[0, 64, 0, 0][..], &filler(16, 3)].concat(),
+        ),
         // ciphertext length larger than the body
-        raw("ax-ct-big", T_AUTH, 40, [&[0, 16, 0, 64][..], &filler(32, 5)].concat()),
-        raw("ax-ffff", T_AUTH, 12, vec![0xFF, 0xFF, 0xFF, 0xFF, 1, 2, 3, 4]),
-        raw("ax-nonce-fffd", T_AUTH, 12, vec![0xFF, 0xFD, 0, 0, 1, 2, 3, 4]),
+        raw(
+            "ax-ct-big",
+            T_AUTH,
+            40,
+            [&[0, 16, 0, 64][..], &filler(32, 5)].concat(),
+        ),
+        raw(
+            "ax-ffff",
+            T_AUTH,
+            12,
+            vec![0xFF, 0xFF, 0xFF, 0xFF, 1, 2, 3, 4],
+        ),
+        raw(
+            "ax-nonce-fffd",
+            T_AUTH,
+            12,
+            vec![0xFF, 0xFD, 0, 0, 1, 2, 3, 4],
+        ),
         raw("ax-zero", T_AUTH, 8, vec![0, 0, 0, 0]),
         // well formed but not produced with any of our keys
-        raw("ax-garbage", T_AUTH, 40, [&[0, 16, 0, 16][..], &filler(32, 9)].concat()).core(),
+        raw(
+            "ax-garbage",
+            T_AUTH,
+            40,
+            [&[0, 16, 0, 16][..], &filler(32, 9)].concat(),
+        )
+        .core(),
     ];
     if v5 {
         v.push(raw("ax-len6", T_AUTH, 6, vec![0, 16, 0, 0]));
@@ -720,21 +1013,73 @@ fn valid_auth_fields(env: &Env, v5: bool) -> Vec<Field> {
     let mut v = vec![
         auth("au-c2s256", Alg::A256, Dir::C2S, vec![]).core(),
         auth("au-c2s512", Alg::A512, Dir::C2S, vec![]),
-        auth("au-s2c256-ck", Alg::A256, Dir::S2C, encode_raw(&[ck(Alg::A256)])).core(),
-        auth("au-s2c512-2ck", Alg::A512, Dir::S2C, encode_raw(&[ck(Alg::A512), ck(Alg::A512)])),
+        auth(
+            "au-s2c256-ck",
+            Alg::A256,
+            Dir::S2C,
+            encode_raw(&[ck(Alg::A256)]),
+        )
+        .core(),
+        auth(
+            "au-s2c512-2ck",
+            Alg::A512,
+            Dir::S2C,
+            encode_raw(&[ck(Alg::A512), ck(Alg::A512)]),
+        ),
         // decrypts, but the plaintext contains another encrypted field
-        auth("au-s2c256-nested", Alg::A256, Dir::S2C, encode_raw(&[raw("n", T_AUTH, 8, vec![0, 0, 0, 0])])),
+        auth(
+            "au-s2c256-nested",
+            Alg::A256,
+            Dir::S2C,
+            encode_raw(&[raw("n", T_AUTH, 8, vec![0, 0, 0, 0])]),
+        ),
         // decrypts, but the plaintext is badly framed / holds an invalid placeholder
-        auth("au-s2c256-badinner", Alg::A256, Dir::S2C, vec![0x01, 0x04, 0x00, 0x03]),
-        auth("au-s2c256-inner-phnz", Alg::A256, Dir::S2C, encode_raw(&[raw("p", T_PLACEHOLDER, 8, vec![0, 0, 1, 0])])),
+        auth(
+            "au-s2c256-badinner",
+            Alg::A256,
+            Dir::S2C,
+            vec![0x01, 0x04, 0x00, 0x03],
+        ),
+        auth(
+            "au-s2c256-inner-phnz",
+            Alg::A256,
+            Dir::S2C,
+            encode_raw(&[raw("p", T_PLACEHOLDER, 8, vec![0, 0, 1, 0])]),
+        ),
         auth("au-s2c256-stub", Alg::A256, Dir::S2C, vec![0x01, 0x04]),
         // extra bytes inside the field after the ciphertext; nonce needing padding
-        auth_ext("au-c2s256-tail4", Alg::A256, Dir::C2S, vec![], None, 0, vec![0xAA, 0xBB, 0xCC, 0xDD]),
-        auth_ext("au-s2c256-n13", Alg::A256, Dir::S2C, encode_raw(&[ef("u", T_UID, &filler(8, 1))]), Some(filler(13, 0x21)), 0x5A, vec![]),
+        auth_ext(
+            "au-c2s256-tail4",
+            Alg::A256,
+            Dir::C2S,
+            vec![],
+            None,
+            0,
+            vec![0xAA, 0xBB, 0xCC, 0xDD],
+        ),
+        auth_ext(
+            "au-s2c256-n13",
+            Alg::A256,
+            Dir::S2C,
+            encode_raw(&[ef("u", T_UID, &filler(8, 1))]),
+            Some(filler(13, 0x21)),
+            0x5A,
+            vec![],
+        ),
     ];
     if v5 {
-        v.push(auth("au-s2c256-did", Alg::A256, Dir::S2C, encode_raw(&[ef("d", T_DRAFT, DRAFT.as_bytes())])));
-        v.push(auth("au-s2c256-rq6", Alg::A256, Dir::S2C, encode_raw(&[ef("r", T_REFID_REQ, &[0, 1])])));
+        v.push(auth(
+            "au-s2c256-did",
+            Alg::A256,
+            Dir::S2C,
+            encode_raw(&[ef("d", T_DRAFT, DRAFT.as_bytes())]),
+        ));
+        v.push(auth(
+            "au-s2c256-rq6",
+            Alg::A256,
+            Dir::S2C,
+            encode_raw(&[ef("r", T_REFID_REQ, &[0, 1])]),
+        ));
     }
     v
 }
@@ -749,14 +1094,30 @@ pub(super) fn alphabet_v4(env: &Env) -> Vec<Field> {
         ef("ck512", T_COOKIE, &env.cookies[1]),
         ef("ck20", T_COOKIE, &filler(20, 0x51)),
         // right key id (KeySet::new has id_offset 1), ciphertext length 2, garbage
-        ef("ck-id-ok", T_COOKIE, &[&[0, 0, 0, 1, 0, 2][..], &filler(18, 0x53)].concat()),
+        ef(
+            "ck-id-ok",
+            T_COOKIE,
+            &[&[0, 0, 0, 1, 0, 2][..], &filler(18, 0x53)].concat(),
+        ),
         // live key id, but shorter than id + length + nonce
         ef("ck-id-ok-short", T_COOKIE, &[0, 0, 0, 1, 0, 2, 7, 7]),
-        ef("ck-ctlen-big", T_COOKIE, &[&[0, 0, 0, 1, 0xFF, 0xFF][..], &filler(18, 0x55)].concat()),
-        ef("ck-badid", T_COOKIE, &[&[0, 0, 0, 0, 0, 2][..], &filler(18, 0x57)].concat()),
+        ef(
+            "ck-ctlen-big",
+            T_COOKIE,
+            &[&[0, 0, 0, 1, 0xFF, 0xFF][..], &filler(18, 0x55)].concat(),
+        ),
+        ef(
+            "ck-badid",
+            T_COOKIE,
+            &[&[0, 0, 0, 0, 0, 2][..], &filler(18, 0x57)].concat(),
+        ),
         ef("ph16", T_PLACEHOLDER, &[0; 16]).core(),
         ef("ph104", T_PLACEHOLDER, &[0; 104]),
-        ef("ph-nz", T_PLACEHOLDER, &[0, 0, 0, 0, 0, 0, 0, 9, 0, 0, 0, 0]),
+        ef(
+            "ph-nz",
+            T_PLACEHOLDER,
+            &[0, 0, 0, 0, 0, 0, 0, 9, 0, 0, 0, 0],
+        ),
         raw("ph0", T_PLACEHOLDER, 4, vec![]),
         // NTPv5-only types: plain unknown fields in an NTPv4 packet
         ef("did", T_DRAFT, &[DRAFT.as_bytes(), &[0]].concat()),
@@ -805,7 +1166,11 @@ pub(super) fn alphabet_v5(env: &Env) -> Vec<Field> {
         ef("ck256", T_COOKIE, &env.cookies[0]).core(),
         ef("ck512", T_COOKIE, &env.cookies[1]),
         ef("ck21", T_COOKIE, &filler(21, 0x51)),
-        ef("ck-id-ok", T_COOKIE, &[&[0, 0, 0, 1, 0, 2][..], &filler(17, 0x53)].concat()),
+        ef(
+            "ck-id-ok",
+            T_COOKIE,
+            &[&[0, 0, 0, 1, 0, 2][..], &filler(17, 0x53)].concat(),
+        ),
         ef("ck-id-ok-short", T_COOKIE, &[0, 0, 0, 1, 0, 2, 7]),
         ef("ph16", T_PLACEHOLDER, &[0; 16]).core(),
         ef("ph7", T_PLACEHOLDER, &[0; 7]),
@@ -848,8 +1213,19 @@ pub(super) fn alphabet_v5(env: &Env) -> Vec<Field> {
 }
 
 pub(super) fn mac_tails() -> Vec<Vec<u8>> {
-    let mac = |n: usize| -> Vec<u8> { [&[0, 0, 0, 1][..], &filler(n.saturating_sub(4), 0xA1)].concat()[..n].to_vec() };
-    vec![vec![], mac(4), mac(20), mac(24), mac(3), mac(16), mac(25), mac(28)]
+    let mac = |n: usize| -> Vec<u8> {
+        [&[0, 0, 0, 1][..], &filler(n.saturating_sub(4), 0xA1)].concat()[..n].to_vec()
+    };
+    vec![
+        vec![],
+        mac(4),
+        mac(20),
+        mac(24),
+        mac(3),
+        mac(16),
+        mac(25),
+        mac(28),
+    ]
 }
 
 // ---------------------------------------------------------------------------------------
@@ -878,7 +1254,9 @@ pub(super) struct Block {
 
 impl Block {
     fn size(&self) -> u64 {
-        self.hdrs.len() as u64 * (self.alpha.len() as u64).pow(self.len as u32) * self.tails.len() as u64
+        self.hdrs.len() as u64
+            * (self.alpha.len() as u64).pow(self.len as u32)
+            * self.tails.len() as u64
     }
 }
 
@@ -932,10 +1310,18 @@ impl Plan {
                 "{}/{}/[{}]/tail{}",
                 c.name,
                 c.headers[h].0,
-                fields.iter().map(|f| f.name.as_str()).collect::<Vec<_>>().join(","),
+                fields
+                    .iter()
+                    .map(|f| f.name.as_str())
+                    .collect::<Vec<_>>()
+                    .join(","),
                 c.tails[t].len()
             );
-            return Case { built, swept: b.swept, desc };
+            return Case {
+                built,
+                swept: b.swept,
+                desc,
+            };
         }
         panic!("harness: base index out of range");
     }
@@ -948,7 +1334,11 @@ impl Plan {
         let long = |a: &Vec<Field>| (0..a.len()).filter(|&i| a[i].long).collect::<Vec<_>>();
         let core = |a: &Vec<Field>| (0..a.len()).filter(|&i| a[i].core).collect::<Vec<_>>();
         let nothuge = |a: &Vec<Field>| (0..a.len()).filter(|&i| !a[i].huge).collect::<Vec<_>>();
-        let (v4pair, v5pair) = if quick { (short(&v4), short(&v5)) } else { (nothuge(&v4), nothuge(&v5)) };
+        let (v4pair, v5pair) = if quick {
+            (short(&v4), short(&v5))
+        } else {
+            (nothuge(&v4), nothuge(&v5))
+        };
         let (v4all, v4short, v4long, v4core) = (all(&v4), short(&v4), long(&v4), core(&v4));
         let (v5all, v5short, v5long, v5core) = (all(&v5), short(&v5), long(&v5), core(&v5));
         let h34 = headers_v34(4);
@@ -957,12 +1347,22 @@ impl Plan {
             Corpus {
                 name: "v3",
                 headers: headers_v34(3),
-                alphabet: vec![ef("x-uid32", T_UID, &filler(32, 0x41)), ef("x-u1000", 0x2222, &filler(996, 0x77)), ef("x-u4044", 0x3333, &filler(4040, 0x79))],
+                alphabet: vec![
+                    ef("x-uid32", T_UID, &filler(32, 0x41)),
+                    ef("x-u1000", 0x2222, &filler(996, 0x77)),
+                    ef("x-u4044", 0x3333, &filler(4040, 0x79)),
+                ],
                 tails: mac_tails(),
                 lead: None,
             },
             // 1: NTPv4
-            Corpus { name: "v4", headers: h34, alphabet: v4, tails: mac_tails(), lead: None },
+            Corpus {
+                name: "v4",
+                headers: h34,
+                alphabet: v4,
+                tails: mac_tails(),
+                lead: None,
+            },
             // 2: NTPv5 (no MAC in v5: a tail is stray bytes)
             Corpus {
                 name: "v5",
@@ -974,7 +1374,15 @@ impl Plan {
             // 3: versions 0,1,2,6,7
             Corpus {
                 name: "vx",
-                headers: [0u8, 1, 2, 6, 7].iter().map(|&vn| (format!("vn{vn}"), hdr_v34(vn, 0, 3, 1, 6, 0, 0, 0, [0; 4], [0, 0, 0, 1]))).collect(),
+                headers: [0u8, 1, 2, 6, 7]
+                    .iter()
+                    .map(|&vn| {
+                        (
+                            format!("vn{vn}"),
+                            hdr_v34(vn, 0, 3, 1, 6, 0, 0, 0, [0; 4], [0, 0, 0, 1]),
+                        )
+                    })
+                    .collect(),
                 alphabet: vec![ef("x-uid32", T_UID, &filler(32, 0x41))],
                 tails: vec![vec![], vec![0, 0, 0, 1]],
                 lead: None,
@@ -984,21 +1392,117 @@ impl Plan {
         let nt = |c: usize| (0..corpora[c].tails.len()).collect::<Vec<_>>();
         let mut s0 = vec![
             // v3 and the unknown versions: every header x <=1 field x every tail, swept
-            Block { corpus: 0, hdrs: nh(0), alpha: vec![], len: 0, tails: nt(0), lead: false, swept: true },
-            Block { corpus: 0, hdrs: vec![0], alpha: vec![0, 1, 2], len: 1, tails: vec![0, 1], lead: false, swept: true },
-            Block { corpus: 3, hdrs: nh(3), alpha: vec![], len: 0, tails: nt(3), lead: false, swept: true },
-            Block { corpus: 3, hdrs: nh(3), alpha: vec![0], len: 1, tails: vec![0], lead: false, swept: true },
+            Block {
+                corpus: 0,
+                hdrs: nh(0),
+                alpha: vec![],
+                len: 0,
+                tails: nt(0),
+                lead: false,
+                swept: true,
+            },
+            Block {
+                corpus: 0,
+                hdrs: vec![0],
+                alpha: vec![0, 1, 2],
+                len: 1,
+                tails: vec![0, 1],
+                lead: false,
+                swept: true,
+            },
+            Block {
+                corpus: 3,
+                hdrs: nh(3),
+                alpha: vec![],
+                len: 0,
+                tails: nt(3),
+                lead: false,
+                swept: true,
+            },
+            Block {
+                corpus: 3,
+                hdrs: nh(3),
+                alpha: vec![0],
+                len: 1,
+                tails: vec![0],
+                lead: false,
+                swept: true,
+            },
             // v4: every header x <=1 short field x every tail, swept
-            Block { corpus: 1, hdrs: nh(1), alpha: vec![], len: 0, tails: nt(1), lead: false, swept: true },
-            Block { corpus: 1, hdrs: nh(1), alpha: v4short.clone(), len: 1, tails: nt(1), lead: false, swept: true },
+            Block {
+                corpus: 1,
+                hdrs: nh(1),
+                alpha: vec![],
+                len: 0,
+                tails: nt(1),
+                lead: false,
+                swept: true,
+            },
+            Block {
+                corpus: 1,
+                hdrs: nh(1),
+                alpha: v4short.clone(),
+                len: 1,
+                tails: nt(1),
+                lead: false,
+                swept: true,
+            },
             // v4 long fields (up to 4096 bytes in total): 1 header x 2 tails, swept
-            Block { corpus: 1, hdrs: vec![0], alpha: v4long.clone(), len: 1, tails: vec![0, 3], lead: false, swept: true },
+            Block {
+                corpus: 1,
+                hdrs: vec![0],
+                alpha: v4long.clone(),
+                len: 1,
+                tails: vec![0, 3],
+                lead: false,
+                swept: true,
+            },
             // v5: every header x <=1 short field x every tail, without and with leading draft id
-            Block { corpus: 2, hdrs: nh(2), alpha: vec![], len: 0, tails: nt(2), lead: false, swept: true },
-            Block { corpus: 2, hdrs: nh(2), alpha: v5short.clone(), len: 1, tails: nt(2), lead: false, swept: true },
-            Block { corpus: 2, hdrs: (0..V5_VALID).collect(), alpha: vec![], len: 0, tails: nt(2), lead: true, swept: true },
-            Block { corpus: 2, hdrs: (0..V5_VALID).collect(), alpha: v5short.clone(), len: 1, tails: nt(2), lead: true, swept: true },
-            Block { corpus: 2, hdrs: vec![0], alpha: v5long.clone(), len: 1, tails: vec![0], lead: true, swept: true },
+            Block {
+                corpus: 2,
+                hdrs: nh(2),
+                alpha: vec![],
+                len: 0,
+                tails: nt(2),
+                lead: false,
+                swept: true,
+            },
+            Block {
+                corpus: 2,
+                hdrs: nh(2),
+                alpha: v5short.clone(),
+                len: 1,
+                tails: nt(2),
+                lead: false,
+                swept: true,
+            },
+            Block {
+                corpus: 2,
+                hdrs: (0..V5_VALID).collect(),
+                alpha: vec![],
+                len: 0,
+                tails: nt(2),
+                lead: true,
+                swept: true,
+            },
+            Block {
+                corpus: 2,
+                hdrs: (0..V5_VALID).collect(),
+                alpha: v5short.clone(),
+                len: 1,
+                tails: nt(2),
+                lead: true,
+                swept: true,
+            },
+            Block {
+                corpus: 2,
+                hdrs: vec![0],
+                alpha: v5long.clone(),
+                len: 1,
+                tails: vec![0],
+                lead: true,
+                swept: true,
+            },
         ];
         // pairs, swept
         let (h4, t4, h5, t5): (Vec<usize>, Vec<usize>, Vec<usize>, Vec<usize>) = if quick {
@@ -1007,31 +1511,112 @@ impl Plan {
             (vec![0, 1, 2], vec![0, 1, 2, 3, 4], vec![0, 1], vec![0, 2])
         };
         let s1 = vec![
-            Block { corpus: 1, hdrs: h4.clone(), alpha: v4pair.clone(), len: 2, tails: t4.clone(), lead: false, swept: true },
-            Block { corpus: 2, hdrs: h5.clone(), alpha: v5pair.clone(), len: 2, tails: t5.clone(), lead: false, swept: true },
-            Block { corpus: 2, hdrs: h5.clone(), alpha: v5pair.clone(), len: 2, tails: t5.clone(), lead: true, swept: true },
+            Block {
+                corpus: 1,
+                hdrs: h4.clone(),
+                alpha: v4pair.clone(),
+                len: 2,
+                tails: t4.clone(),
+                lead: false,
+                swept: true,
+            },
+            Block {
+                corpus: 2,
+                hdrs: h5.clone(),
+                alpha: v5pair.clone(),
+                len: 2,
+                tails: t5.clone(),
+                lead: false,
+                swept: true,
+            },
+            Block {
+                corpus: 2,
+                hdrs: h5.clone(),
+                alpha: v5pair.clone(),
+                len: 2,
+                tails: t5.clone(),
+                lead: true,
+                swept: true,
+            },
         ];
         // triples over the full alphabets, base datagrams only (no mutation)
         let s2 = vec![
-            Block { corpus: 1, hdrs: vec![0], alpha: v4all.clone(), len: 3, tails: vec![0, 2], lead: false, swept: false },
-            Block { corpus: 2, hdrs: vec![0], alpha: v5all.clone(), len: 3, tails: vec![0], lead: false, swept: false },
-            Block { corpus: 2, hdrs: vec![1], alpha: v5all.clone(), len: 3, tails: vec![0], lead: true, swept: false },
+            Block {
+                corpus: 1,
+                hdrs: vec![0],
+                alpha: v4all.clone(),
+                len: 3,
+                tails: vec![0, 2],
+                lead: false,
+                swept: false,
+            },
+            Block {
+                corpus: 2,
+                hdrs: vec![0],
+                alpha: v5all.clone(),
+                len: 3,
+                tails: vec![0],
+                lead: false,
+                swept: false,
+            },
+            Block {
+                corpus: 2,
+                hdrs: vec![1],
+                alpha: v5all.clone(),
+                len: 3,
+                tails: vec![0],
+                lead: true,
+                swept: false,
+            },
         ];
         // cheap stages first: the budget test between stages can then only ever skip the
         // thorough-only last stage
         let mut stages = vec![
-            Stage { label: "<=1 field, all headers, all tails, swept".into(), blocks: std::mem::take(&mut s0) },
-            Stage { label: "3 fields over the full alphabets, unmutated".into(), blocks: s2 },
-            Stage { label: "2 fields, swept".into(), blocks: s1 },
+            Stage {
+                label: "<=1 field, all headers, all tails, swept".into(),
+                blocks: std::mem::take(&mut s0),
+            },
+            Stage {
+                label: "3 fields over the full alphabets, unmutated".into(),
+                blocks: s2,
+            },
+            Stage {
+                label: "2 fields, swept".into(),
+                blocks: s1,
+            },
         ];
         if !quick {
             // triples over the reduced (core) alphabets, swept
             stages.push(Stage {
                 label: "3 fields over the core alphabets, swept".into(),
                 blocks: vec![
-                    Block { corpus: 1, hdrs: vec![0, 1], alpha: v4core.clone(), len: 3, tails: vec![0, 2, 3], lead: false, swept: true },
-                    Block { corpus: 2, hdrs: vec![0, 1], alpha: v5core.clone(), len: 3, tails: vec![0], lead: false, swept: true },
-                    Block { corpus: 2, hdrs: vec![0, 1], alpha: v5core.clone(), len: 3, tails: vec![0], lead: true, swept: true },
+                    Block {
+                        corpus: 1,
+                        hdrs: vec![0, 1],
+                        alpha: v4core.clone(),
+                        len: 3,
+                        tails: vec![0, 2, 3],
+                        lead: false,
+                        swept: true,
+                    },
+                    Block {
+                        corpus: 2,
+                        hdrs: vec![0, 1],
+                        alpha: v5core.clone(),
+                        len: 3,
+                        tails: vec![0],
+                        lead: false,
+                        swept: true,
+                    },
+                    Block {
+                        corpus: 2,
+                        hdrs: vec![0, 1],
+                        alpha: v5core.clone(),
+                        len: 3,
+                        tails: vec![0],
+                        lead: true,
+                        swept: true,
+                    },
                 ],
             });
         }
@@ -1079,7 +1664,9 @@ pub(super) struct Findings {
 
 impl Findings {
     pub(super) fn new() -> Findings {
-        Findings { inner: std::sync::Mutex::new(BTreeMap::new()) }
+        Findings {
+            inner: std::sync::Mutex::new(BTreeMap::new()),
+        }
     }
 
     pub(super) fn report(&self, class: &str, what: String, trace: String) {
@@ -1114,7 +1701,12 @@ impl Findings {
 // C23 proper
 // ---------------------------------------------------------------------------------------
 
-const CTX_NAMES: [&str; 4] = ["nocipher", "client-s2c256", "client-s2c512", "server-keyset"];
+const CTX_NAMES: [&str; 4] = [
+    "nocipher",
+    "client-s2c256",
+    "client-s2c512",
+    "server-keyset",
+];
 
 fn key_ctx<'a>(env: &'a Env, i: usize) -> KeyCtx<'a> {
     match i {
@@ -1140,7 +1732,8 @@ impl Drop for Local<'_> {
         for (ci, row) in self.counts.iter().enumerate() {
             for (oi, n) in row.iter().enumerate() {
                 if *n > 0 {
-                    self.ctx.add(&format!("outcome.{}.{}", CTX_NAMES[ci], OUTCOMES[oi]), *n);
+                    self.ctx
+                        .add(&format!("outcome.{}.{}", CTX_NAMES[ci], OUTCOMES[oi]), *n);
                 }
             }
         }
@@ -1158,10 +1751,23 @@ fn panic_class(prefix: &str, msg: &str) -> String {
     let file = msg.rsplit(" @ ").next().unwrap_or("");
     let file = file.rsplit('/').next().unwrap_or("");
     let stem = file.split('.').next().unwrap_or("");
-    if stem.is_empty() { prefix.to_string() } else { format!("{prefix}:{stem}") }
+    if stem.is_empty() {
+        prefix.to_string()
+    } else {
+        format!("{prefix}:{stem}")
+    }
 }
 
-fn run_case(found: &Findings, env: &Env, st: &mut Local<'_>, stage: usize, index: u64, case: &Case, pats: &[Pat], contexts: &[usize]) {
+fn run_case(
+    found: &Findings,
+    env: &Env,
+    st: &mut Local<'_>,
+    stage: usize,
+    index: u64,
+    case: &Case,
+    pats: &[Pat],
+    contexts: &[usize],
+) {
     st.bases += 1;
     st.max_len = st.max_len.max(case.built.bytes.len() as u64);
     let base_key = (stage as u64) << 48 | index;
@@ -1176,7 +1782,10 @@ fn run_case(found: &Findings, env: &Env, st: &mut Local<'_>, stage: usize, index
                 }
                 Err(e) => found.report(
                     &panic_class("C23:decode-panic", &e),
-                    format!("NtpPacket::deserialize panicked ({e}) in context {} on a mutant of {}", CTX_NAMES[ci], case.desc),
+                    format!(
+                        "NtpPacket::deserialize panicked ({e}) in context {} on a mutant of {}",
+                        CTX_NAMES[ci], case.desc
+                    ),
                     format!("{};{}", CTX_NAMES[ci], common::hex(bytes)),
                 ),
             }
@@ -1202,9 +1811,18 @@ fn replay(ctx: &Ctx, env: &Env, trace: &str) -> String {
         return "unparsable trace".into();
     };
     match common::catch(|| outcome_class(&key_ctx(env, ci).decode(&bytes))) {
-        Ok(o) => format!("context={} len={} outcome={}", CTX_NAMES[ci], bytes.len(), OUTCOMES[o]),
+        Ok(o) => format!(
+            "context={} len={} outcome={}",
+            CTX_NAMES[ci],
+            bytes.len(),
+            OUTCOMES[o]
+        ),
         Err(e) => {
-            ctx.violation(&panic_class("C23:decode-panic", &e), format!("deserialize panicked: {e}"), trace);
+            ctx.violation(
+                &panic_class("C23:decode-panic", &e),
+                format!("deserialize panicked: {e}"),
+                trace,
+            );
             format!("context={} len={} PANIC {e}", CTX_NAMES[ci], bytes.len())
         }
     }
@@ -1237,25 +1855,52 @@ fn check() {
     if !env.self_test.is_empty() {
         ctx.note("harness_self_test", &env.self_test.join("; "));
     }
-    ctx.note("contexts", &contexts.iter().map(|c| CTX_NAMES[*c]).collect::<Vec<_>>().join(","));
+    ctx.note(
+        "contexts",
+        &contexts
+            .iter()
+            .map(|c| CTX_NAMES[*c])
+            .collect::<Vec<_>>()
+            .join(","),
+    );
     let found = Findings::new();
     let mut completed = 0;
     for s in 0..plan.stages.len() {
         if s > 0 && ctx.over_budget() {
-            ctx.cap_hit(&format!("stage {s} ({}) not started; stages < {s} complete", plan.stages[s].label));
+            ctx.cap_hit(&format!(
+                "stage {s} ({}) not started; stages < {s} complete",
+                plan.stages[s].label
+            ));
             break;
         }
         let total = plan.stage_total(s);
         ctx.add(&format!("stage{s}_bases"), total);
-        let chunk = if plan.stages[s].blocks.iter().any(|b| b.swept) { 1 } else { 64 };
+        let chunk = if plan.stages[s].blocks.iter().any(|b| b.swept) {
+            1
+        } else {
+            64
+        };
         common::par_for_with(
             total,
             chunk,
-            || Local { ctx: &ctx, counts: [[0; OUTCOMES.len()]; 4], evals: 0, bases: 0, swept_bases: 0, max_len: 0, distinct: HashSet::new() },
+            || Local {
+                ctx: &ctx,
+                counts: [[0; OUTCOMES.len()]; 4],
+                evals: 0,
+                bases: 0,
+                swept_bases: 0,
+                max_len: 0,
+                distinct: HashSet::new(),
+            },
             |st, i| {
                 let case = plan.build(&env, s, i);
                 if i % 9973 == 1 {
-                    ctx.sample(format!("stage {s} base {i}: {} ({} bytes{})", case.desc, case.built.bytes.len(), if case.swept { ", swept" } else { "" }));
+                    ctx.sample(format!(
+                        "stage {s} base {i}: {} ({} bytes{})",
+                        case.desc,
+                        case.built.bytes.len(),
+                        if case.swept { ", swept" } else { "" }
+                    ));
                 }
                 run_case(&found, &env, st, s, i, &case, &pats, &contexts);
             },
